@@ -140,7 +140,10 @@ class Printer:
             op = {'Union': 'UNION', 'Intersect': 'INTERSECT', 'Except': 'EXCEPT'}[cls]
             if not n.unique:
                 op += ' ALL'
-            return f'{self.select(n.left)} {op} {self.select(n.right)}'
+            right = self.select(n.right)
+            if type(n.right).__name__ in ('Union', 'Intersect', 'Except'):
+                right = f'SELECT * FROM ({right})'      # a grouped right operand, in the form SQLite reads
+            return f'{self.select(n.left)} {op} {right}'
         if cls != 'Select':
             raise NotPrintable(cls)
         s = ''
